@@ -716,6 +716,37 @@ func (m *collection) appendChildLLSnapshot(dst *segmentStack,
 	return dst
 }
 
+// refreshChildLLSnapshots recursively re-points the child segment
+// stacks that ss already has at the child snapshots of the given
+// lower level snapshot.
+func (m *collection) refreshChildLLSnapshots(ss *segmentStack, src Snapshot) {
+	for cName, childStack := range ss.childSegStacks {
+		childCollection, exists := m.childCollections[cName]
+		if !exists || childCollection.incarNum != childStack.incarNum {
+			continue // Dropped or recreated since; nobody reads this stack.
+		}
+
+		var childSnap Snapshot
+		if src != nil {
+			childSnap, _ = src.ChildCollectionSnapshot(cName)
+
+			if childFooter, ok := childSnap.(*Footer); ok && childFooter != nil &&
+				childFooter.incarNum != childCollection.incarNum {
+				childFooter.Close()
+				childSnap = nil
+			}
+		}
+
+		prev := childStack.lowerLevelSnapshot
+		childStack.lowerLevelSnapshot = NewSnapshotWrapper(childSnap, nil)
+		if prev != nil {
+			prev.decRef()
+		}
+
+		childCollection.refreshChildLLSnapshots(childStack, childSnap)
+	}
+}
+
 // appendChildStacks recursively appends child segment stacks.
 func (m *collection) appendChildStacks(dst, src *segmentStack) *segmentStack {
 	if src == nil {
